@@ -31,7 +31,7 @@ from vf import termsmt as TS
 
 PID = "C02"
 LEVEL = "translation_validation"
-ITEM_TIMEOUT = {"quick": 420, "thorough": 3000}
+ITEM_TIMEOUT = {"quick": 900, "thorough": 3600}
 ASSUMPTIONS = [
     "stepwise execution = sequential application of each instruction's own map (semantics of single instructions are C06's subject)",
     "noaliasing=True: byte ranges accessed through different symbolic base pointers are pairwise disjoint and no access wraps around the address space (assumed in the query)",
@@ -388,6 +388,17 @@ def run_seq_culprit(name, mi, idx, raws, noalias, memtrace, tier, seed, P, res):
     best = dict(best)
     best["key"] = "%s:%s" % (best["replay"]["key"], culprit)
     best["desc"] = best["desc"] + " | culprit: last instruction of the shortest failing prefix %s of %s" % (mns, rep.get("mns"))
+    if not best["reproduced"]:
+        # the solver separates the translated terms, but on that very state the real block-map route and the real
+        # step-by-step route give the same constants (or leave the same locations open): the translator's reading of
+        # the expression (e.g. of a mutable sign annotation) is finer than what evaluation observes.  Not a violation
+        # of the statement, and not a success either: counted as inconclusive, shown in the evidence.
+        res["inconclusive"] += 1
+        res["counterexamples_not_reproduced"] = res.get("counterexamples_not_reproduced", 0) + 1
+        ex = res.setdefault("not_reproduced_examples", [])
+        if len(ex) < 4:
+            ex.append("%s: %s" % (best["key"], best["desc"][:200]))
+        return
     res["violations"].append(best)
 
 
@@ -652,6 +663,7 @@ def coverage(agg, tier):
         "discharged_with_uf_abstraction": agg.get("discharged_uf", 0),
         "top_results_admitted": agg.get("top_results", 0),
         "untranslatable": agg.get("untranslatable", 0),
+        "solver_counterexamples_not_reproduced_by_the_real_routes(inconclusive)": agg.get("counterexamples_not_reproduced", 0),
         "solver_s": round(agg.get("solver_s", 0.0), 1),
         "rule": "program = (cpu module, decode mode, instruction sequence, noaliasing, memtrace); obligation = one register / the pc / one universally quantified memory byte of one route (block map; state>>block; block.eval(state); stepwise from state) against the z3 composition of the single-instruction maps, for all values of everything the state template leaves symbolic",
         "bounds": {"sequences": "per cpu module and mode (quick 24 | thorough 120) seeded sequences of length 1..(4 | 8) drawn from a pool of randomly decoded instructions (<= 2 per mnemonic in quick) that have semantics",
